@@ -377,7 +377,7 @@ func genC13(seed uint64, tier string, outdir string) *Report {
 		rep.KnownChecked = append(rep.KnownChecked, KnownResult{ID: "C13:history-retention-zero", StillFails: stale, What: what})
 		st.finish(r, true, "")
 	}
-	writeValShards(outdir, "C13", st.texts, 16, rep)
+	writeShards(outdir, "C13", valCaseHeader, "run_valcase", "valcase", st.texts, 16, rep)
 	return rep
 }
 
